@@ -17,11 +17,74 @@ var Steps int
 // Show prints its arguments like fmt.Println.
 func Show(a ...interface{}) { Steps++; fmt.Fprintln(Cur, a...) }
 
+// Typed recorders (C07 twins): a host function describes, address-free, what it received and returns the
+// description; the script shows it. Kind + value: a value that crossed the boundary intact renders the same
+// natively and under the interpreter.
+func desc(x interface{}) string {
+	v := reflect.ValueOf(x)
+	for d := 0; v.IsValid() && v.Kind() == reflect.Ptr && d < 3; d++ {
+		if v.IsNil() {
+			return "nil-ptr"
+		}
+		v = v.Elem()
+		if v.CanInterface() {
+			return "ptr->" + desc(v.Interface())
+		}
+	}
+	if !v.IsValid() {
+		return "nil"
+	}
+	if v.Kind() == reflect.Func {
+		if f, ok := x.(func(int) int); ok {
+			return fmt.Sprint("func(int)int f(5)=", f(5))
+		}
+		return "func"
+	}
+	return fmt.Sprint(v.Kind(), "|", x)
+}
+
+func HAny(x interface{}) string { return "Any " + desc(x) }
+
+func HTwo(a interface{}, b int) string { return "Two " + desc(a) + " " + fmt.Sprint(b) }
+
+func HVar(xs ...interface{}) string {
+	s := fmt.Sprint("Var ", len(xs))
+	for _, x := range xs {
+		s += " " + desc(x)
+	}
+	return s
+}
+
+func HInt(x int) string { return fmt.Sprint("Int ", x) }
+
+func HStr(x string) string { return fmt.Sprintf("Str %q", x) }
+
+func HInts(xs []int) string { return fmt.Sprint("Ints ", len(xs), xs) }
+
+func HErr(e error) string {
+	if e == nil {
+		return "Err nil"
+	}
+	return "Err " + e.Error()
+}
+
+func HFn(f func(int) int) string { return fmt.Sprint("Fn ", f(3), f(4)) }
+
+func HIntP(p *int) string {
+	if p == nil {
+		return "IntP nil"
+	}
+	*p += 100
+	return fmt.Sprint("IntP ", *p-100)
+}
+
 // Exports returns the symbol table that gives scripts a Show writing into buf.
 func Exports(buf *bytes.Buffer, steps *int) map[string]map[string]reflect.Value {
 	return map[string]map[string]reflect.Value{
 		"verif/engine/twin/h/h": {
 			"Show": reflect.ValueOf(func(a ...interface{}) { *steps++; fmt.Fprintln(buf, a...) }),
+			"HAny": reflect.ValueOf(HAny), "HTwo": reflect.ValueOf(HTwo), "HVar": reflect.ValueOf(HVar), "HInt": reflect.ValueOf(HInt),
+			"HStr": reflect.ValueOf(HStr), "HInts": reflect.ValueOf(HInts), "HErr": reflect.ValueOf(HErr), "HFn": reflect.ValueOf(HFn), "HIntP": reflect.ValueOf(HIntP),
 		},
 	}
 }
